@@ -112,6 +112,11 @@ def judge(R, label, fname, impl, ref, tags, close=False, sub=None):
 
 
 def cases(tier, seed):
+    from .. import produced
+    return _cases(tier, seed) + produced.case_list()
+
+
+def _cases(tier, seed):
     out = []
     for shape in SHAPES + ([(4,), (3, 3), (2, 3, 2), (1, 1, 1), (3, 1, 2)] if tier == "thorough" else []):
         for rot in (0, 1, 2):
@@ -132,6 +137,9 @@ def cases(tier, seed):
 
 
 def run_case(case, R):
+    if case.get("k") == "produced":
+        from .. import produced
+        return produced.run(R, ID, case["i0"], case["i1"])
     k = case["k"]
     if k == "reduce":
         shape, rot, var = tuple(case["s"]), case["rot"], case["v"]
